@@ -124,6 +124,11 @@ class FileServer(Resource, aiocoap.interfaces.ObservableResource):
         path = request.opt.uri_path
         if any("/" in p or p in (".", "..") for p in path):
             raise InvalidPathError()
+        # Only the last component may be empty (indicating a directory): A
+        # leading empty component would make the joined path absolute (and
+        # thus leave the root), any other would silently be dropped.
+        if "" in path[:-1]:
+            raise InvalidPathError()
 
         return self.root / "/".join(path)
 
